@@ -73,6 +73,8 @@ def gen_metrics(rng, n):
 def gen_training_scenario(rng, *, max_epochs=12, crash=False):
     n = rng.choice([1, 2, 3, 4, 4, 5, 6, 6, 8, 10, max_epochs])
     n = min(n, max_epochs)
+    if not crash and rng.random() < 0.04:
+        n = 40  # a long run: drift and state that accumulates over epochs (C15 only: cheap without crash plans)
     sc = {}
     sc["params"] = gen_params(rng, n)
     sc["metrics"] = gen_metrics(rng, n)
@@ -113,7 +115,7 @@ def gen_training_scenario(rng, *, max_epochs=12, crash=False):
                 elif t == "float":
                     vals.append(rng.choice(GRID))
                 else:
-                    vals.append(rng.choice(["a", "bc", "x_y", "tok-1", "Z"]))
+                    vals.append(rng.choice(["a", "bc", "x_y", "tok-1", "Z", "", "", "a b", "0", "None"]))
             ents.append({"name": f"ent{i}", "type": t, "fmt": fmt, "values": vals})
     sc["entries"] = ents
     sc["bufsize"] = rng.choice([1, 512, 4096, 1 << 16, 1 << 16, 1 << 16])
